@@ -106,3 +106,34 @@ pub enum UEnumB {
     B(u8, Bool),
     C { offset: u32, bytes: FlatVec<u8, u16> },
 }
+
+/// sized types whose Default is NOT the all-zero image
+#[derive(Default, Clone, Copy, Debug, PartialEq, Eq)]
+#[flat]
+pub enum CEnumD {
+    A,
+    #[default]
+    B,
+    C,
+}
+
+#[derive(Clone, Debug, PartialEq, Eq)]
+#[flat]
+pub struct SDef {
+    pub a: u8,
+    pub b: u16,
+    pub e: CEnumD,
+}
+impl Default for SDef {
+    fn default() -> Self {
+        SDef { a: 7, b: 0x1234, e: CEnumD::C }
+    }
+}
+
+#[flat(sized = false, default = true)]
+pub enum UEnumD {
+    A,
+    #[default]
+    Idle,
+    Data(FlatVec<u8, u16>),
+}
